@@ -349,12 +349,18 @@ def c07(rep, tier):
     # literal obligations of parse_literal (shared with C01): grammar facts for every literal conversion
     sub = type(rep)(rep.prop, rep.tier)
     r_panic.run(p, sub, g, "parse")
+    import inline
+    names = ["parse_literal", "parse_variable_pair", "parse_value"]
+    for nm in list(names):
+        for f_ in p.fns.values():
+            if f_.id == "liquid_core::parser::parser::" + nm:
+                names += [h.rsplit("::", 1)[-1] for h in inline.helpers_of(p, [f_], depth=1)]
     for o in sub.obligations:
-        if "parse_literal" in o["site"] or "parse_variable_pair" in o["site"] or "parse_value" in o["site"]:
+        if any(nm in o["site"] for nm in names):
             if o["ok"]:
                 rep.ok(o["rule"], o["site"], o["where"], o["how"])
     for v in sub.violations:
-        if "parse_literal" in v["key"] or "parse_variable_pair" in v["key"] or "parse_value" in v["key"]:
+        if any(nm in v["key"] for nm in names):
             rep.viol(v["rule"], v["key"].split("|", 1)[1], v["where"], v["what"], v["detail"])
     rep.analysed["config:all"] = {"bodies": len(p.fns)}
 
